@@ -440,13 +440,7 @@ Proof.
       destruct (qframe_lists s s1 k P2) as [_ [Q2 _]]. rewrite Q2, (getm_some _ _ _ Hm), Hw in PL. lia.
     + rewrite getm_setm_same, Hhm', (getm_some _ _ _ Hm). reflexivity.
     + eapply lframe_trans; [apply qframe_lframe; exact P2|].
-      eapply lframe_trans; [apply qframe_lframe; apply (setl_refc_qframe s1 r l _ P5)|].
+      eapply lframe_trans; [apply qframe_lframe; apply (setl_refc_qframe s1 r l (add8 (l_refc l) 1) P5)|].
       pose proof (lframe_updm_lists s2 k (fun m => m <| m_wait := Some q1 |> <| m_waited := true |>)) as LF.
-      rewrite (updm_some _ _ _ _ Hm2) in LF.
-      (* m_waited changes: state the frame by hand *)
-      clear LF. constructor; auto.
-      * intros r0. change (store (setm s2 k m')) with (store s2). destruct (aget (store s2) r0) as [l0|]; auto.
-        right. exists (l_refc l0). rewrite lrefc_id. auto.
-      * intros k0. rewrite getm_setm, mgrs_setm, aget_aset. destruct (k =? k0) eqn:E; [|repeat split; auto].
-        apply N.eqb_eq in E; subst k0. rewrite (getm_some _ _ _ Hm2), Hm2. unfold m'. destruct m; cbn. repeat split; auto; intros; discriminate.
+      rewrite (updm_some _ _ _ _ Hm2) in LF. apply LF. intros m0. destruct m0; cbn. auto.
 Qed.
